@@ -124,6 +124,10 @@ def make_inputs(tier):
         25: ("buf", b"x" + b"a" * 3000),                 # $g needs more than RE_MAX_FIBERS fibers: ERROR_TOO_MANY_RE_FIBERS, pool at 1024
         26: ("buf", b"x" + b"a" * 186 + b"b"),           # $g matches with 1021 fibers (the most this family reaches without the error)
         27: ("buf", b"hello world abbb. aaaXYZW abc"),   # ordinary regexps
+        # hex strings with jumps (yr_re_fast_exec, per-scanner position pool): after the jump two candidates survive the
+        # next byte, the longer one fails later, the shorter one matches; several occurrences
+        28: ("buf", b"abcdXefeZ" * 12 + b" 1234xx5y5zz67 1234..5.5..67 " * 6 + b"qrstu5uv qrst.u.uuv " * 5 + b"abddXXefefZ" * 4),
+        29: ("buf", b"abcdXefeZ.abcdefef.abcdXXeefefe" * 40),
         24: ("fill", (b"ab" * 18 + b"XYZV", 28000, b"ab" * 11 + b"XYZV")),
     }
     return inputs
@@ -200,6 +204,9 @@ rule noisy { strings: $n = /(a{1,6}){1,6}XYZW/ condition: $n }
 rule hungry { strings: $g = /x(a|aa){1,1000}b/ condition: $g }
 rule ordinary { strings: $o = /he+l+o [a-z]+/ $p = /ab+[^b]/ condition: any of them }
 rule cond_matches { condition: xs matches /a+b/ }
+rule hexjump { strings: $j = { 61 62 63 64 [1-4] 65 66 } condition: $j }
+rule hexjump2 { strings: $k = { 31 32 33 34 [2-6] 35 [1-3] 36 37 } $l = { 71 72 73 74 [0-3] 75 [1-2] 76 } condition: any of them }
+rule hexjumpalt { strings: $m = { 61 62 (63 | 64) 64 [1-4] 65 66 } condition: $m }
 '''
 
 
@@ -336,7 +343,7 @@ def ctx_canon_impl(d, extnames):
     fib = d["fibers"].split("/")
     return dict(ep=d["ep"], fs=d["fsize"], fl=d["flags"], to=d["timeout"], nb=d["nb"], le="0" if d.get("lasterr", "-") == "-" else "1",
                 d=d["rmf"] + d["nsu"] + d["std"] + d["m"] + d["um"] + d["req"], objs=sorted(objs),
-                pool_all_free=(fib[0] == fib[1]), pool=int(fib[1]) + int(d["positions"]))
+                pool_all_free=(fib[0] == fib[1]), pool=int(fib[1]) + int(d["positions"]), fibers=int(fib[1]), positions=int(d["positions"]))
 
 
 def ctx_canon_model(s):
@@ -451,6 +458,14 @@ def run(chk):
     # later scan must still be able to run its regexps; likewise after a scan that came within 3 fibers of the limit
     hists.append(("refiberlimit0", [sc(27), sc(25), sc(27), sc(22), sc(21), sc(25), sc(25), sc(27), sc(26), dst], ("re", "limit")))
     hists.append(("refiberlimit1", [sc(26), sc(27), sc(26), sc(21), sc(27), sc(25), sc(26), dst], ("re", "limit")))
+    # the fast-exec position pool: lists handed back to the pool must keep the pool's old contents reachable
+    ab = lambda i, k, a: dict(kind="scan", inp=i, script=[(k, a)], plan=[], m="scan:%d:%d=%s:-" % (i, k, a), h=scan_lines(inputs[i], [(k, a)], []))
+    hists.append(("fastexec0", [sc(28), sc(29), sc(28), dst], ("re", "limit")))
+    hists.append(("fastexec1", [sc(28), ab(29, 5, "a"), sc(27), ab(28, 6, "e"), sc(29), sc(28), dst], ("re", "limit")))
+    hists.append(("fastexec2", [sc(29), dst], ("re", "limit")))
+    if tier != "quick":
+        for j in range(6):
+            hists.append(("fastexec%d" % (3 + j), [sc(28)] * (j + 1) + [ab(29, j, "ae"[j % 2]), sc(29), dst], ("re", "limit")))
     # external variable named like a module: scan twice
     for j in range(2):
         r = chk.rng.fork()
@@ -471,6 +486,7 @@ def run(chk):
 
     # ---- model, with its oracle measured on fresh scanners (rounds: the model asks, the implementation answers)
     tables = {}       # rule-set family -> {key -> natural string}
+    fam_max = {}      # rule-set family -> (most fibers, most fast-exec positions) any single scan needs on a fresh scanner
     dirty_keys = set()
 
     def model_lines():
@@ -529,6 +545,8 @@ def run(chk):
             # file_size function that field says nothing, but then any message other than T/S, or success, does
             reached = c["fsize"] != "-" or rc == 0 or any(t[:1] in "IDCMNF" for t in msgs.split(";") if t)
             table[key] = "%s:%d:%d:%d" % (intern.msgs(msgs), rc, 1 if reached else 0, int(fib[1]) + int(c["positions"]))
+            fm = fam_max.get(fam, (0, 0))
+            fam_max[fam] = (max(fm[0], int(fib[1])), max(fm[1], int(c["positions"])))
     chk.note(oracle_entries=sum(len(t) for t in tables.values()), oracle_rounds=rnd + 1)
 
     # ---- compare model and implementation, operation by operation
@@ -628,8 +646,14 @@ def run(chk):
                      # (the model sets last_error only for a scan stopped at the too-many-matches message; the code also
                      #  sets it when match verification itself fails, e.g. ERROR_TOO_MANY_RE_FIBERS: allowed once such a scan was seen)
                      and not (k == "le" and ic["le"] == "1" and scan_error_seen)]
-            if ic["pool"] != ms["pool"] and ms["susp"] == "0" and not hid.startswith("abandon") and not after_proc:     # (a waiting scan has allocated some of its fibers already)
+            # the two pools (regexp fibers, fast-exec positions) hold what the hungriest scan so far needed of each: at least
+            # the model's figure (the largest single-scan total), at most the largest per-pool need any single scan of this
+            # rule set has on a fresh scanner -- never more with a longer history
+            fmax, pmax = fam_max.get(family(wt), (0, 0))
+            if ms["susp"] == "0" and not hid.startswith("abandon") and not after_proc and (
+                    ic["pool"] < ms["pool"] or ic["fibers"] > fmax or ic["positions"] > pmax):
                 diffs.append("pool")
+                ic = dict(ic, pool="fibers %d positions %d (fresh-scanner maxima %d / %d)" % (ic["fibers"], ic["positions"], fmax, pmax))
             if not ic["pool_all_free"]:
                 chk.violation("pool", "%s op %d: fibers not returned to the pool between scans" % (hid, oi), replay)
             ep_before = ic["ep"]
